@@ -68,7 +68,18 @@ func (it *Iter[K, V]) Next() bool {
 	for len(it.keys) > 0 {
 		i := 0
 		if it.choice && len(it.keys) > 1 {
-			i = DataChoice("map:"+it.label, len(it.keys))
+			if e := cur(); e != nil && e.mapPolicy != nil {
+				names := make([]string, len(it.keys))
+				for j, k := range it.keys {
+					names[j] = e.keyName(any(k))
+				}
+				i = e.mapPolicy(it.label, names)
+				if i < 0 || i >= len(it.keys) {
+					i = 0
+				}
+			} else {
+				i = DataChoice("map:"+it.label, len(it.keys))
+			}
 		}
 		k := it.keys[i]
 		it.keys = append(it.keys[:i:i], it.keys[i+1:]...)
@@ -83,3 +94,12 @@ func (it *Iter[K, V]) Next() bool {
 }
 
 var _ = sort.Strings
+
+// SetMapPolicy installs (or with nil removes) a harness-owned resolution of map-order choices:
+// while set, choice iterators ask the policy (label, canonical names of the remaining keys)
+// instead of recording a choice point. Used by observers that need a specific tip.
+func SetMapPolicy(f func(label string, keys []string) int) {
+	if e := cur(); e != nil {
+		e.mapPolicy = f
+	}
+}
